@@ -186,4 +186,60 @@ pub(crate) mod b {
         }
         println!("BOUNDED-CASES {}", n);
     }
+
+    /// A3 (C10): the spans of a cell buffer are exactly the connected components of its cells under
+    /// 8-neighbour adjacency: a partition (no cell lost or duplicated), nothing joined across a gap
+    #[test]
+    fn bounded_spans_are_components() {
+        let (w, h) = (4usize, 3usize);
+        let mut n = 0u64;
+        for code in 0..(1u32 << (w * h)) {
+            let mut cb = CellBuffer::new();
+            let mut cells = vec![];
+            for i in 0..(w * h) {
+                if code & (1 << i) != 0 {
+                    let c = Cell::new((i % w) as i32, (i / w) as i32);
+                    cb.insert(c, 'x');
+                    cells.push(c);
+                }
+            }
+            // reference: flood fill
+            let mut comp: BTreeMap<Cell, usize> = BTreeMap::new();
+            let mut ncomp = 0;
+            for c in &cells {
+                if comp.contains_key(c) {
+                    continue;
+                }
+                let mut stack = vec![*c];
+                comp.insert(*c, ncomp);
+                while let Some(p) = stack.pop() {
+                    for q in &cells {
+                        if !comp.contains_key(q) && (q.x - p.x).abs() <= 1 && (q.y - p.y).abs() <= 1 {
+                            comp.insert(*q, ncomp);
+                            stack.push(*q);
+                        }
+                    }
+                }
+                ncomp += 1;
+            }
+            let spans: Vec<Span> = Vec::<Span>::from(&cb);
+            let mut seen: BTreeMap<Cell, usize> = BTreeMap::new();
+            let mut ok = spans.len() == ncomp;
+            for (si, sp) in spans.iter().enumerate() {
+                for (c, ch) in sp.iter() {
+                    ok = ok && *ch == 'x' && seen.insert(*c, si).is_none();
+                }
+                // all cells of a span belong to one component
+                let ids: std::collections::BTreeSet<usize> = sp.iter().filter_map(|(c, _)| comp.get(c).copied()).collect();
+                ok = ok && ids.len() == 1;
+            }
+            ok = ok && seen.len() == cells.len();
+            if !ok {
+                println!("BOUNDED-WITNESS occupied cells {:?}: {} spans {:?}, {} components", cells, spans.len(), spans, ncomp);
+                panic!("spans = connected components");
+            }
+            n += 1;
+        }
+        println!("BOUNDED-CASES {}", n);
+    }
 }
